@@ -509,7 +509,7 @@ def gen_layout_case(rnd, e2e, wrapped=True, imports_prob=0.15, variant=None, dea
                      | 'symlink' (the project is also reachable through a directory symlink and the script
                                   through a file symlink; the run path and the -p spelling differ)"""
     symlinks = {}
-    if variant == 'symlink':
+    if variant in ('symlink', 'selected_link'):
         prefix = 'proj/'
     elif variant == 'module_path_link':
         prefix = 'real_lib/'
@@ -530,6 +530,20 @@ def gen_layout_case(rnd, e2e, wrapped=True, imports_prob=0.15, variant=None, dea
         # the selection names the same file through a different chain of links
         spellings = [n for n in names if n != script_run]
         spellings += ['./' + n for n in spellings[:2]]
+    relink = None
+    if variant == 'selected_link':
+        # one package of the project is a symlink whose target has another name and nesting
+        # (proj/engine -> shared/engine_v2): its modules are engine.*, whatever the target is called
+        tops = [m for m in sorted(lay.mods) if lay.mods[m]['is_pkg'] and '.' not in m]
+        pk = rnd.choice(tops)
+        logical, physical = prefix + pk, 'shared/%s_v2' % pk
+        for m, info in lay.mods.items():
+            if m == pk or m.startswith(pk + '.'):
+                newp = physical + info['path'][len(logical):]
+                files[newp] = files.pop(info['path'])
+                info['path'] = newp
+        symlinks[logical] = physical
+        relink = (physical, logical, pk)
     if variant == 'module_path_link':
         # `kernprof -l -p X -m X` where X is found through PYTHONPATH=lib and lib -> real_lib
         symlinks = {'lib': 'real_lib'}
@@ -561,7 +575,47 @@ def gen_layout_case(rnd, e2e, wrapped=True, imports_prob=0.15, variant=None, dea
     case['_lay'] = lay
     case['_bindings'] = bindings
     case['_forced'] = forced
+    case['_relink'] = relink
     case['_spellings'] = spellings
+    return case
+
+
+def gen_identical_helpers_case(rnd, e2e=True):
+    """k >= 3 modules with byte-identical functions on the same line numbers, all imported and ALL selected
+    (no unregistered twin anywhere): each copy must have its own entry in the stats"""
+    lay = Layout()
+    text, funcs, classes = gen_module_text(rnd, wrapped=False)
+    names = rnd.sample(['alpha', 'beta', 'gamma', 'delta', 'eps'], rnd.randint(3, 4))
+    pkg = rnd.random() < 0.5
+    if pkg:
+        lay.add_module('hlp', 'hlp/__init__.py', '', [], {}, is_pkg=True)
+    for n in names:
+        lay.add_module(('hlp.' if pkg else '') + n, ('hlp/' if pkg else '') + n + '.py', text, list(funcs), dict(classes))
+    mods = [m for m in sorted(lay.mods) if not lay.mods[m]['is_pkg']]
+    lines, bindings = ['_acc = []'], []
+    for k, m in enumerate(mods):
+        al = 'h%d' % k
+        lines.append(rnd.choice(['import %s as %s' % (m, al), 'from %s import %s as %s' % (m.rsplit('.', 1)[0], m.rsplit('.', 1)[1], al)])
+                     if '.' in m else 'import %s as %s' % (m, al))
+        b = Binding(m, al, 'module', al)
+        bindings.append(b)
+        lines.append(usage_line(lay, b))
+    lines.append('print(len(_acc))')
+    files = dict(lay.files)
+    files['script.py'] = '\n'.join(lines) + '\n'
+    case = dict(kind='layout', files=files, script='script.py', script_real='script.py', module=None, pythonpath=None,
+                dead_links=[], with_own=False, symlinks={}, variant='identical_helpers',
+                bindings=[[b.real, b.local, b.kind] for b in bindings],
+                mods={d: dict(path=i['path'], is_pkg=i['is_pkg'], ns=False, funcs=i['funcs'],
+                              classes={c: [list(x) for x in ms] for c, ms in i['classes'].items()})
+                      for d, i in lay.mods.items()},
+                imports=False, e2e=e2e, prefix='')
+    half = len(mods) // 2 + 1
+    specs = mods if not pkg or rnd.random() < 0.6 else ['hlp']
+    case['prof_mod'] = list(specs)
+    case['cli'] = (['-p', ','.join(specs[:half])] + (['-p', ','.join(specs[half:])] if specs[half:] else [])) if e2e else None
+    S = list(specs) + ([m for m in mods] if specs == ['hlp'] else [])
+    case['S_h'], case['full_h'], case['S_subpkgs'] = S, False, []
     return case
 
 
@@ -574,6 +628,23 @@ def finish_layout_case(rnd, case, base_abs):
     specs, cli = gen_selection(rnd, lay, bindings, case['script_real'], base_abs, case['prefix'], forced=forced,
                                symlinks={k: v for k, v in case['symlinks'].items() if not k.endswith('.py')},
                                script_spellings=spellings)
+    relink = case.pop('_relink', None)
+    if relink:
+        physical, logical, pk = relink
+        kids = [m for m in sorted(lay.mods) if m.startswith(pk + '.') and not lay.mods[m]['is_pkg']]
+        # the linked package (or one of its modules) is selected, by name or by a path through the link
+        extra = rnd.choice([pk, logical, logical + '/'] + [rnd.choice(kids), lay.mods[rnd.choice(kids)]['path']] * bool(kids))
+        specs.append(extra)
+
+        def through_link(x):
+            ab = os.path.isabs(x)
+            r = os.path.relpath(x, base_abs) if ab else os.path.normpath(x)
+            if r == physical or r.startswith(physical + '/'):
+                r = logical + r[len(physical):]
+                return os.path.join(base_abs, r) if ab else r
+            return x
+        specs = [through_link(x) for x in specs]
+        cli = ['-p', ','.join(specs)] if rnd.random() < 0.5 else [a for x in specs for a in ('-p', x)]
     if case.get('module') and not any(x in spellings for x in specs):
         specs.append(rnd.choice(spellings))
         cli = ['-p', ','.join(specs)] if rnd.random() < 0.5 else [a for x in specs for a in ('-p', x)]
